@@ -276,3 +276,15 @@ void h_watch_register(void)
 		__CPROVER_assert(r == -1 && spec_find(v_in, verif_in.add_ret) == v_w[1], "[C20] the kernel hands out one descriptor per watched inode: a second watch object that gets a descriptor already held by a registered watch is refused, and that watch stays the one events are routed to");
 	CANARY();
 }
+
+void h_watch_unregister(void)
+{
+	v_build();
+	__CPROVER_assume(verif_in.registered[0]);
+	iv_inotify_watch_unregister(v_w[0]);
+	__CPROVER_assert(spec_find(v_in, v_w[0]->wd) == NULL, "[C20,C01] an unregistered watch is out of the instance's set whatever inotify_rm_watch answered (EINVAL when the kernel dropped the descriptor first: its last records may still be queued, and they must find no watch)");
+	if (NW >= 2 && verif_in.registered[1])
+		__CPROVER_assert(spec_find(v_in, v_w[1]->wd) == v_w[1], "[C20] other watches of the instance stay registered");
+	CANARY();
+}
+
